@@ -29,8 +29,13 @@ pub fn run_property(id: &str, tier: Tier, replay: Option<(String, Value)>) -> i3
     dispatch! {
         "C03" => c03,
         "C04" => c04,
+        "C05" => c05,
+        "C06" => c06,
         "C08" => c08,
         "C09" => c09,
+        "C10" => c10,
+        "C11" => c11,
+        "C12" => c12,
         "C13" => c13,
         "C14" => c14,
         "C16" => c16,
